@@ -98,6 +98,7 @@ pub struct Unit {
     pub methodfn: Vec<(String, String)>,
     pub pathrename: Vec<(String, String)>,
     pub methodval: Vec<(String, String)>,
+    pub inlinecall: Vec<String>,
     pub strlits: bool,
 }
 
@@ -340,6 +341,7 @@ pub fn parse_unit(text: &str) -> Unit {
             "methodfn" => u.methodfn.push((words[0].clone(), words[1].clone())),
             "pathrename" => u.pathrename.push((words[0].clone(), words[1].clone())),
             "strlits" => u.strlits = true,
+            "inlinecall" => u.inlinecall.extend(words),
             "methodval" => u.methodval.push((words[0].clone(), words[1].clone())),
             "poolcall" => u.poolcall.push((words[0].clone(), words[1].clone(), words[2].clone())),
             "lockinv" => u.lockinv.push((words[0].clone(), words[1..].join(" "))),
